@@ -6,8 +6,9 @@
 (* This is a function-vector (B3) module: the DOCUMENTED semantics of a    *)
 (* rules configuration (rules_conditions.md, rules.md) are transcribed as  *)
 (* TLA+ operators over a small abstract typed value domain; Init           *)
-(* enumerates (rule list, trace) vectors, the single action Eval computes  *)
-(* the documented outcome (matched rule, keep class, rate) into the state. *)
+(* enumerates (rule list, trace) vectors, the action Eval computes the     *)
+(* documented outcome (matched rule, keep class, rate) into the state      *)
+(* (EvalRev: the same for the trace with its spans in the opposite order). *)
 (* The Go harness builds every rule list as a real rules file, loads it    *)
 (* through the real loader, builds the real trace and compares             *)
 (* GetSampleRate with the outcome computed here.                           *)
@@ -24,7 +25,7 @@
 (***************************************************************************)
 EXTENDS Integers, Sequences, FiniteSets, TLC, Json
 
-CONSTANTS Mode,      \* "single" | "pair" | "list" : which family of vectors Init enumerates
+CONSTANTS Mode,      \* "single" | "pair" | "list" | "all" : which families of vectors Init enumerates
           Big,       \* FALSE: quick bound, TRUE: thorough bound
           PairScopes,\* Mode "pair": the rule scopes enumerated (a subset of {"trace", "span"})
           Faithful   \* TRUE: the graph also contains the known deviation successors
@@ -321,7 +322,7 @@ VecDefined(v) ==
 (* reading.  Datatype is part of the name only where the code looks at it. *)
 DevKey(c) == "absent:" \o c.op \o "/" \o (IF c.op \in CmpOps \cup {"in", "not-in"} THEN c.dt ELSE "any")
 DevHits(v) ==
-  {<<i, j>> \in (1 .. Len(v.rules)) \X (1 .. 2) :
+  {<<i, j>> \in (1 .. Len(v.rules)) \X (1 .. 4) :
      /\ j <= Len(v.rules[i].conds)
      /\ LET c == v.rules[i].conds[j] IN
         /\ c.op # "has-root-span" /\ DevProne(c) /\ MatchAbsentDev(c)
@@ -367,31 +368,37 @@ SingleVecs ==
 
 \* two-condition rules over two-span traces
 PairTemplates ==
-  IF Big THEN {<<"=", "none", S("a")>>, <<"!=", "none", S("a")>>,
-               <<"not-exists", "none", NoVal>>, <<"!=", "string", S("a")>>, <<"does-not-contain", "none", S("a")>>}
+  IF Big THEN {<<"=", "none", S("a")>>, <<"not-exists", "none", NoVal>>, <<"!=", "string", S("a")>>,
+               <<"does-not-contain", "none", S("a")>>}
   ELSE {<<"=", "none", S("a")>>, <<"not-exists", "none", NoVal>>, <<"!=", "string", S("a")>>}
 PairFields ==
   IF Big THEN {<<Fld("f")>>, <<RFld("f")>>, <<Fld("f"), Fld("g")>>, <<RFld("f"), Fld("g")>>, <<Fld("g"), RFld("f")>>}
   ELSE {<<Fld("f")>>, <<RFld("f")>>, <<Fld("f"), Fld("g")>>, <<RFld("f"), Fld("g")>>}
-PairConds ==
-       {C1(fs, t[1], t[2], t[3]) : fs \in PairFields, t \in PairTemplates}
-  \cup {HasRoot(TRUE), HasRoot(FALSE), C1(<<Fld(NumDesc)>>, "=", "int", I(2))}
+PairExtra == {HasRoot(TRUE), HasRoot(FALSE), C1(<<Fld(NumDesc)>>, "=", "int", I(2))}
+PairConds == {C1(fs, t[1], t[2], t[3]) : fs \in PairFields, t \in PairTemplates} \cup PairExtra
+\* the quick bound takes the second condition from a subset
+PairConds2 ==
+  IF Big THEN {C1(fs, t[1], t[2], t[3]) : fs \in {<<Fld("f")>>, <<RFld("f"), Fld("g")>>, <<Fld("g"), RFld("f")>>}, t \in PairTemplates}
+              \cup PairExtra
+  ELSE {C1(<<Fld("f")>>, t[1], t[2], t[3]) : t \in PairTemplates}
+       \cup {HasRoot(TRUE), C1(<<Fld(NumDesc)>>, "=", "int", I(2))}
 PairSpans == {[f |-> a, g |-> b] : a \in {Absent, S("a"), S("b")}, b \in {Absent, S("a")}}
+PairSpans2 == IF Big THEN PairSpans ELSE {sp \in PairSpans : sp.g = Absent}
 PairVecs ==
   {[rules |-> << Rule(sc, <<c1, c2>>, TRUE, 0, FALSE) >>,
     trace |-> [spans |-> <<s1, s2>>, root |-> root]]
-     : sc \in PairScopes, c1 \in PairConds, c2 \in PairConds,
-       s1 \in PairSpans, s2 \in PairSpans, root \in (IF Big THEN {0, 1, 2} ELSE {0, 1})}
+     : sc \in PairScopes, c1 \in PairConds, c2 \in PairConds2,
+       s1 \in PairSpans, s2 \in PairSpans2, root \in (IF Big THEN {0, 1, 2} ELSE {0, 1})}
 
 \* rule lists: order, drop / SampleRate / downstream, default
 ListConds ==
-  {<<>>, << C1(FF, "=", "none", S("a")) >>, << C1(FF, "exists", "none", NoVal) >>,
-   << C1(FF, "!=", "string", S("a")) >>}
-  \cup (IF Big THEN {<< C1(FF, "not-exists", "none", NoVal) >>, << C1(FF, "=", "none", S("b")), HasRoot(TRUE) >>} ELSE {})
+  {<<>>, << C1(FF, "=", "none", S("a")) >>, << C1(FF, "!=", "string", S("a")) >>}
+  \cup (IF Big THEN {<< C1(FF, "exists", "none", NoVal) >>, << C1(FF, "not-exists", "none", NoVal) >>,
+                     << C1(FF, "=", "none", S("b")), HasRoot(TRUE) >>} ELSE {})
 \* <<drop, rate, ds>>
 ListActions == {<<TRUE, 0, FALSE>>, <<TRUE, 5, FALSE>>, <<FALSE, 1, FALSE>>, <<FALSE, 3, FALSE>>,
                 <<FALSE, 0, TRUE>>, <<TRUE, 5, TRUE>>}
-ListRules == {Rule(sc, cs, a[1], a[2], a[3]) : sc \in (IF Big THEN {"", "trace", "span"} ELSE {"", "span"}),
+ListRules == {Rule(sc, cs, a[1], a[2], a[3]) : sc \in {"", "span"},
                                                cs \in ListConds, a \in ListActions}
 ListTraces == {OneSpan(sv, root) : sv \in {Absent, S("a"), S("b")}, root \in (IF Big THEN {0, 1} ELSE {1})}
 ListVecs ==
@@ -401,6 +408,7 @@ ListVecs ==
 Vecs == CASE Mode = "single" -> SingleVecs
           [] Mode = "pair"   -> PairVecs
           [] Mode = "list"   -> ListVecs
+          [] Mode = "all"    -> SingleVecs \cup PairVecs \cup ListVecs
 
 ---------------------------------------------------------------------------
 Init == /\ vec \in {v \in Vecs : VecDefined(v)}
@@ -423,9 +431,29 @@ EvalDev(ideal, coded) ==
            /\ UNCHANGED vec
            /\ act' = [name |-> "Eval", dev |-> DevName(vec)]
 
+(* The same call on the same trace whose spans arrived in the opposite      *)
+(* order.  The documented semantics ("any span", "a single span") do not    *)
+(* depend on the order of the spans, so the outcome is the same.            *)
+EvalRev(ideal) ==
+        /\ out = Unevaluated
+        /\ Len(vec.trace.spans) > 1
+        /\ out' = ideal
+        /\ UNCHANGED vec
+        /\ act' = [name |-> "EvalRev"]
+
+EvalRevDev(ideal, coded) ==
+           /\ Faithful
+           /\ out = Unevaluated
+           /\ Len(vec.trace.spans) > 1
+           /\ coded # ideal
+           /\ out' = coded
+           /\ UNCHANGED vec
+           /\ act' = [name |-> "EvalRev", dev |-> DevName(vec)]
+
 Next == LET ideal == EvalVec(vec, FALSE)
             coded == EvalVec(vec, TRUE)
-        IN Eval(ideal) \/ EvalDev(ideal, coded)
+        IN \/ Eval(ideal) \/ EvalDev(ideal, coded)
+           \/ EvalRev(ideal) \/ EvalRevDev(ideal, coded)
 
 Spec == Init /\ [][Next]_vars
 
@@ -482,8 +510,24 @@ ASSUME Dual("contains", "does-not-contain")
 ASSUME Dual("in", "not-in")
 
 ---------------------------------------------------------------------------
+(* What is dumped for the harness: the vector with every value written as  *)
+(* a short label ("abs", "s:ab", "i:100", "f:15" (tenths), "b:true") and   *)
+(* every field as its name in the rules file ("root.f").                   *)
+Lab(v) == CASE v.k \in {"abs", "none", "list"} -> v.k
+            [] v.k = "s" -> "s:" \o v.s
+            [] v.k \in {"i", "f"} -> v.k \o ":" \o ToString(v.n)
+            [] v.k = "b" -> IF v.b THEN "b:true" ELSE "b:false"
+JCond(c) == [fields |-> [i \in 1 .. Len(c.fields) |-> (IF c.fields[i].r THEN "root." ELSE "") \o c.fields[i].n],
+             fk |-> c.fk, op |-> c.op, dt |-> c.dt, val |-> Lab(c.val),
+             list |-> [i \in 1 .. Len(c.list) |-> Lab(c.list[i])]]
+JRule(r) == [scope |-> r.scope, conds |-> [j \in 1 .. Len(r.conds) |-> JCond(r.conds[j])],
+             drop |-> r.drop, rate |-> r.rate, ds |-> r.ds]
+JVec(v) == [rules |-> [i \in 1 .. Len(v.rules) |-> JRule(v.rules[i])],
+            trace |-> [spans |-> [i \in 1 .. Len(v.trace.spans) |-> [f |-> Lab(v.trace.spans[i].f), g |-> Lab(v.trace.spans[i].g)]],
+                       root |-> v.trace.root]]
+
 Abs == [out |-> out]
-St == [vec |-> vec, out |-> out]
+St == [vec |-> JVec(vec), out |-> out]
 Dump == PrintT(ToJson([fs |-> St, fa |-> act.name, act |-> act', ts |-> St', fabs |-> Abs, tabs |-> Abs']))
 View == <<vec, out>>
 =============================================================================
